@@ -9,7 +9,7 @@ from .nlpprop import TRUSTED, ASSUMPTIONS
 
 OPTS = {"methods": ["MS", "SS", "DC"], "intgs": ["rk", "expl_euler"], "N_max": 3, "M_max": 3, "deg_max": 4,
         "constraints": False, "objective": False, "p_quad": 0.5, "p_freeT": 0.3, "p_freet0": 0.2,
-        "grids": ("Uniform", "Geometric", "Function")}
+        "grids": ("Uniform", "Geometric", "Function", "Free"), "p_localize": 0.25}
 
 
 def gen_specs(rng, case):
